@@ -286,3 +286,35 @@ def main(tier: str, replay: str | None = None) -> int:
         correspondence="model text == real function body for every case; __int__ constant set equal per pack",
     ))
     return ck.finish()
+
+
+def replay(path: str) -> int:
+    """Re-run the statement stored in a replay file against lib.REPO and print what happens."""
+    import json
+    r = json.load(open(path))
+    if "statement" not in r:
+        print("replay file names a broken obligation/correspondence, not an input:", r.get("kind"))
+        print(json.dumps(r, indent=1)[:3000])
+        return 1
+    cert = r["jmc_txt"]
+    res = compile_batch([dict(src=f"function f0() {{ {r['statement']} }}", cert=cert_text(cert))])[0]
+    if not res["ok"]:
+        print("compile failed:", res["exc"], res["msg"])
+        return 1
+    fns = functions_of(res["files"])
+    text = fns.get("f0", "")
+    ints = {int(m.group(1)) for m in re.finditer(r"^scoreboard players set (-?\d+) %s (-?\d+)$" % re.escape(cert["INT"]),
+                                                  fns.get(cert["LOAD"], ""), re.M)}
+    print("statement:", r["statement"])
+    print("emitted  :", text.replace("\n", " ; "))
+    m = re.match(r"(\S+?)\s*(\+\+|--|\?\?= true|\?\?= false|= true|= false|\?\?=|[-+*/%]=|><|<|>|=)\s*(.*);$", r["statement"])
+    tgt, op, rhs = m.group(1), m.group(2), m.group(3)
+    if op in NULLARY:
+        case = dict(target=tgt, op=op, vop=NULLARY[op], operand=("none", None))
+    elif re.fullmatch(r"-?\d+", rhs):
+        case = dict(target=tgt, op=op, vop=BINOPS[op], operand=("lit", int(rhs)))
+    else:
+        case = dict(target=tgt, op=op, vop=BINOPS[op], operand=("score", rhs))
+    f = semantic_failure(case, cert, text, ints)
+    print("failure  :", f)
+    return 1 if f else 0
